@@ -2448,6 +2448,11 @@ namespace bloch::runtime {
                 }
             }
 
+            // String concatenation accepts any printable operand, booleans included.
+            if (bin->op == "+" && (l.type == Value::Type::String || r.type == Value::Type::String)) {
+                return {Value::Type::String, 0, 0.0, 0, valueToString(l) + valueToString(r)};
+            }
+
             bool lIsBool = l.type == Value::Type::Boolean;
             bool rIsBool = r.type == Value::Type::Boolean;
             if (lIsBool || rIsBool) {
